@@ -71,6 +71,8 @@ class MySQLBuilder(SQLBuilder):
     def RTRIM(builder, expr, chars=None):
         if chars is None: return 'rtrim(', builder(expr), ')'
         return 'trim(trailing ', builder(chars), ' from ' ,builder(expr), ')'
+    def LENGTH(builder, expr):
+        return 'char_length(', builder(expr), ')'  # length() counts bytes in MySQL
     def TO_INT(builder, expr):
         return 'CAST(', builder(expr), ' AS SIGNED)'
     def TO_REAL(builder, expr):
